@@ -1121,6 +1121,12 @@ func (e *Engine) forkTable(fr *frame, st *State, in *ssa.IndexAddr) ([]Alt, bool
 		}
 	}
 	if feasible {
+		// an index the path does not confine to the array's length panics
+		if arr, ok := derefType(in.X.Type()).Underlying().(*types.Array); ok {
+			if lo, hi, _ := s3.intRange(sy); lo < 0 || hi >= arr.Len() {
+				s3.event(Event{Kind: "runtime-panic", Pos: in.Pos(), Note: fmt.Sprintf("a table of %d entries is indexed with a value the path only confines to [%d, %d]", arr.Len(), lo, hi)})
+			}
+		}
 		alts = append(alts, Alt{s3, avPtr{base.o, base.path + "[other]"}})
 	}
 	return alts, len(alts) > 0
